@@ -64,7 +64,16 @@ func (c *queryCache) get(key uint64, endpoint string) (v any, ok bool) {
 		return v, ok
 	}
 
-	ce.lastGet = c.now()
+	now := c.now()
+	if !ce.expiresAt.IsZero() && ce.expiresAt.Before(now) {
+		// the answer outlived its cache lifetime, gc() only runs every few minutes
+		delete(c.entries, key)
+		c.evictions++
+		c.endpointStats(endpoint).miss()
+		return v, false
+	}
+
+	ce.lastGet = now
 	c.endpointStats(endpoint).hit()
 
 	return ce.data, true
